@@ -693,6 +693,25 @@ def r4_result(ctx, chk, rule="C07.4", order_matters=True):
         # the final states, or a set / tuple made of them once (membership is the same question)
         ok_filter = shape and ((isinstance(cont, ast.Name) and cont.id == s.finals) or _is_set_of(cont, s.finals, cfg, ret)
                                or (isinstance(cont, ast.Call) and call_name(cont) in ("list", "tuple") and len(cont.args) == 1 and isinstance(cont.args[0], ast.Name) and cont.args[0].id == s.finals))
+        if shape and not ok_filter and isinstance(cont, ast.Name) and s.root_loop is not None and isinstance(s.root_loop.target, ast.Name):
+            # a set of the final states collected by the root loop itself: complete only if every iteration adds its final state
+            rl = s.root_loop
+            adds = [n_ for n_ in ast.walk(rl) if isinstance(n_, ast.Call) and isinstance(n_.func, ast.Attribute) and n_.func.attr in ("add", "append") and isinstance(n_.func.value, ast.Name)
+                    and n_.func.value.id == cont.id and len(n_.args) == 1 and isinstance(n_.args[0], ast.Name) and n_.args[0].id == rl.target.id]
+            other_writes = [n_ for n_ in walk_no_nested_defs(f.node) if isinstance(n_, ast.Call) and isinstance(n_.func, ast.Attribute) and isinstance(n_.func.value, ast.Name)
+                            and n_.func.value.id == cont.id and n_.func.attr in ("add", "append", "update", "extend", "discard", "remove", "pop", "clear") and n_ not in adds]
+            if adds and not other_writes:
+                st_add = cfg.stmt_of(adds[0])
+                top = st_add in rl.body
+                before = rl.body[:rl.body.index(st_add)] if top else []
+                skipped = (not top) or any(isinstance(j_, (ast.Continue, ast.Break, ast.Return)) for b_ in before for j_ in ast.walk(b_))
+                if skipped:
+                    chk.violation(rule, f.where(compr), "the result is filtered by `%s`, which the root loop fills only on some iterations (`%s` is %s): a final state that is skipped "
+                                  "there - a repeated one, one already reached from an earlier final state - is not in the set and stays in the result" % (
+                                      cont.id, norm_stmt(st_add), "under a condition" if not top else "behind a `continue`"),
+                                  expected="every final state filtered out of the result", found=src(compr)[:100], construct="reverse_dfs partial final set")
+                    return
+                ok_filter = True
         if shape and not ok_filter and not (isinstance(cont, ast.Name) and cont.id in (s.visited_name,)) and not isinstance(cont, (ast.List, ast.Tuple, ast.Set, ast.Constant)):
             chk.undecided(rule, f.where(compr), "the result filter is `%s`: `%s` is not recognised as the final states" % (src(gen.ifs[0]), src(cont)))
             return
